@@ -61,7 +61,7 @@ class Sim:
                  exec_shuffle: bool = False, order_mode: str = "durations",
                  duration_choices=DURATIONS, clock=None,
                  on_job_start=None, job_fault=None, fingerprint=None,
-                 repo_root: str = "/repo"):
+                 repo_root: str | None = None):
         self.tape = tape
         self.W = W
         self.pickle_jobs = pickle_jobs
@@ -72,7 +72,7 @@ class Sim:
         self.on_job_start = on_job_start  # f(sim, callrec, i)
         self.job_fault = job_fault  # f(sim, callrec, i) -> Exception | None
         self.fingerprint = fingerprint  # f(job_tuple) -> str | None
-        self.repo_root = repo_root
+        self.repo_root = repo_root or os.environ.get("VERIF_REPO", "/repo")
         self.calls: list[CallRecord] = []
         self.now = 0.0  # simulated seconds
         self._depth = 0
